@@ -132,7 +132,7 @@ func codecWidths(m map[string]bool, prefix string) []string {
 }
 
 func C01(p *an.Prog, r *an.Report) {
-	r.Explanation = "Structural necessary conditions of 'serialise(parse(x)) = consumed bytes', decided per wire structure (types with both a Bytes()/Data() serializer and an exported []byte parser, discovered from signatures): R1 coverage — every struct field is an origin of the serializer's output and every struct field of the parser's result originates from the input (provenance slicing across library calls); R2 primitive pairing — a field decoded with binary.BigEndian.UintN is encoded with PutUintN of the same N; R3 order — the order in which the serializer appends the fields equals the order in which the parser's cursor-consuming steps feed them; R5 — the 384-byte key block is written and read with the same affine offsets; R6 — the mapping reader does not stop earlier than the writer's smallest pair and reports short tails (shared with C11). Byte equality for all inputs, certificate excess-payload arithmetic and the value-preservation of the mapping codec are not decided. R5 counts a range only for the size pairs under which its dominating guards are satisfiable and requires the certificate to be parsed from data[384:] unbounded; R7: with offline keys the trailing signature's type operand comes from the transient key type; R8: no serializer reaches a sort or rebuilds a mapping; R9: pointers kept per loop iteration refer to per-iteration objects; R6 also refutes, per remaining length 4..8, that no content is ever accepted. R11: no parser advances its cursor past bytes nothing reads. R12: every string the mapping reader yields comes from the one string reader. R13: length/count arithmetic in integer types narrower than 64 bits cannot wrap (relational proof)."
+	r.Explanation = "Structural necessary conditions of 'serialise(parse(x)) = consumed bytes', decided per wire structure (types with both a Bytes()/Data() serializer and an exported []byte parser, discovered from signatures): R1 coverage — every struct field is an origin of the serializer's output and every struct field of the parser's result originates from the input (provenance slicing across library calls); R2 primitive pairing — a field decoded with binary.BigEndian.UintN is encoded with PutUintN of the same N; R3 order — the order in which the serializer appends the fields equals the order in which the parser's cursor-consuming steps feed them; R5 — the 384-byte key block is written and read with the same affine offsets; R6 — the mapping reader does not stop earlier than the writer's smallest pair and reports short tails (shared with C11). Byte equality for all inputs, certificate excess-payload arithmetic and the value-preservation of the mapping codec are not decided. R5 counts a range only for the size pairs under which its dominating guards are satisfiable and requires the certificate to be parsed from data[384:] unbounded; R7: with offline keys the trailing signature's type operand comes from the transient key type; R8: no serializer reaches a sort or rebuilds a mapping; R9: pointers kept per loop iteration refer to per-iteration objects; R6 also refutes, per remaining length 4..8, that no content is ever accepted. R11: no parser advances its cursor past bytes nothing reads. R12: every string the mapping reader yields comes from the one string reader. R13: length/count arithmetic in integer types narrower than 64 bits cannot wrap (relational proof). R14: a serializer returns an intermediate append-chain buffer only where the deciding branches test an error, a nil/empty optional field, a predicate or a flag mask. R15: no fixed-width encode on a serializer path takes its value from a package-level table."
 	r.Rule = "per structure: one coverage obligation per field and side, one width obligation per fixed-width field, one order obligation; plus layout and threshold obligations"
 	r.Trusted = []string{"go/ssa; provenance through opaque calls assumes results derive from all arguments"}
 	flow := an.NewFlow(p)
@@ -204,6 +204,8 @@ func C01(p *an.Prog, r *an.Report) {
 	c01NoUnreadSkip(p, r, "C01.R11")
 	c11OneStringReader(p, r, "C01.R12") // mapping strings come from the one string reader (same rule as C11.M7)
 	narrowArith(p, r, "C01.R13", nil)   // lengths and counts computed in narrow integer types cannot wrap (same rule as C03.S4)
+	c01NoPartialReturn(p, r, "C01.R14")
+	c01StoredWidthFields(p, r, "C01.R15")
 	c01Block(p, r, "C01.R5")
 	c11Threshold(p, r) // R6 (same rule as C11.M5)
 }
